@@ -6,6 +6,7 @@ type ProfileDef struct {
 	Share int // share of the run budget
 	Sc    Scenario
 	Race  bool // run under the race-detector build only
+	Sweep int  // >0: runs i*Sweep..(i+1)*Sweep-1 share one scenario seed and sweep SweepPos = 0..Sweep-1 (fault/close position)
 }
 
 // PropDef describes how a property is explored.
